@@ -409,6 +409,17 @@ func checkC16(c *core.Ctx, l *core.Ledger) {
 					partial = "io.ReadAtLeast with a minimum below the buffer length at " + c.Rel(in.Pos())
 				}
 			}
+			// the length stays unsigned until it is widened: a detour through a signed 32-bit type turns
+			// prefixes >= 0x80000000 into negative sizes (make panics, the host dies without shutting plugins down)
+			if cv, isCv := in.(*ssa.Convert); isCv {
+				if call, isCall := cv.X.(*ssa.Call); isCall {
+					if o, bits, put, okE := endianOf(call.Call.StaticCallee()); okE && !put && o == "be" && bits == 32 {
+						if b, isB := cv.Type().Underlying().(*types.Basic); isB && (b.Kind() == types.Int32 || b.Kind() == types.Int16 || b.Kind() == types.Int8) {
+							partial = "the frame length is reinterpreted as a signed " + b.Name() + " at " + c.Rel(in.Pos()) + ": large prefixes become negative sizes"
+						}
+					}
+				}
+			}
 			if call, isC := in.(*ssa.Call); isC {
 				if o, bits, put, okE := endianOf(call.Call.StaticCallee()); okE && !put && o == "be" && bits == 32 {
 					be = true
